@@ -112,19 +112,20 @@ Definition pa1 (a : answer) : Prop := noemb (a_args a) /\ (a_ret a = true -> a_a
 Definition PA (l : list (Z * answer)) : Prop := forall id a, In (id, a) l -> pa1 a.
 Definition EN (t : tbl expent) : Prop := forall x w, In (Some (x, w)) t -> not_emb x.
 Definition EC (t : tbl embent) : Prop := forall em, In (Some em) t -> not_emb (e_cap em).
+Definition XM (s : state) : Prop := gen_ok (s_mgen s) (length (s_emb s)) /\ slots_free (s_mgen s) (s_emb s).
 Definition SI (s : state) : Prop := keys_ok (s_ans s) /\ PA (s_ans s) /\ EN (s_exp s) /\ EC (s_emb s).
 Definition FA (s s1 : state) : Prop := s_ans s1 = s_ans s.
 Definition FE (s s1 : state) : Prop := s_exp s1 = s_exp s /\ s_egen s1 = s_egen s.
-Definition FH (s s1 : state) : Prop := s_handles s1 = s_handles s /\ s_emb s1 = s_emb s /\ s_boot s1 = s_boot s.
+Definition FH (s s1 : state) : Prop := s_handles s1 = s_handles s /\ s_emb s1 = s_emb s /\ s_boot s1 = s_boot s /\ s_mgen s1 = s_mgen s.
 
 Lemma FA_trans : forall s s1 s2, FA s s1 -> FA s1 s2 -> FA s s2. Proof. unfold FA. congruence. Qed.
 Lemma FE_trans : forall s s1 s2, FE s s1 -> FE s1 s2 -> FE s s2. Proof. unfold FE. intros s s1 s2 [A B] [C D]. split; congruence. Qed.
 Lemma FE_refl : forall s, FE s s. Proof. split; reflexivity. Qed.
 Lemma FH_refl : forall s, FH s s. Proof. intros; repeat split. Qed.
 Lemma FH_trans : forall s s1 s2, FH s s1 -> FH s1 s2 -> FH s s2.
-Proof. intros s s1 s2 (A & B & C) (A' & B' & C'). repeat split; congruence. Qed.
+Proof. intros s s1 s2 (A & B & C & D) (A' & B' & C' & D'). repeat split; congruence. Qed.
 Lemma TI_FH : forall s s1 l, FH s s1 -> TI s l -> TI s1 l.
-Proof. intros s s1 l (A & B & _) T e. rewrite A, B. apply T. Qed.
+Proof. intros s s1 l (A & B & _ & _) T e. rewrite A, B. apply T. Qed.
 
 Lemma X_tabs : forall j s s1, s_boot s1 = s_boot s -> s_exp s1 = s_exp s -> s_ans s1 = s_ans s -> s_handles s1 = s_handles s ->
   s_emb s1 = s_emb s -> X j s1 = X j s + (cget j (s_lrefs s1) - cget j (s_lrefs s)).
@@ -164,7 +165,7 @@ Proof.
   - inversion H; subst. repeat split. intros j. simpl. lia.
   - inversion H; subst. repeat split. intros j0. rewrite (X_tabs j0 s (lref (-1) j s)) by reflexivity. rewrite cget_lref. simpl.
     rewrite (Z.eqb_sym j j0). destruct (j0 =? j); lia.
-  - destruct (rf_imp_release _ _ _ _ _ H) as (A & (B & B') & (C1 & C2 & C3) & D). repeat split; try assumption.
+  - destruct (rf_imp_release _ _ _ _ _ H) as (A & (B & B') & (C1 & C2 & C3 & C4) & D). repeat split; try assumption.
     intros j. rewrite (X_tabs j s s1) by assumption. rewrite D. simpl. lia.
 Qed.
 
@@ -202,13 +203,20 @@ Qed.
 Lemma rf_emb_release : forall e s l, TI s (CEmb e :: l) ->
   let s1 := emb_release cfg_fixed e s in
   TI s1 l /\ FA s s1 /\ FE s s1 /\ s_handles s1 = s_handles s /\ s_boot s1 = s_boot s /\ s_lrefs s1 = s_lrefs s /\
-  (forall j, EMB j (s_emb s1) = EMB j (s_emb s)) /\ (EC (s_emb s) -> EC (s_emb s1)).
+  (forall j, EMB j (s_emb s1) = EMB j (s_emb s)) /\ (EC (s_emb s) -> EC (s_emb s1)) /\ (XM s -> XM s1).
 Proof.
   intros e s l T. unfold emb_release. pose proof (T e) as Te. destruct (tget e (s_emb s)) as [em|] eqn:E.
   - simpl in Te. rewrite Z.eqb_refl in Te. pose proof (HE_nonneg e (s_handles s)). pose proof (ces_nonneg e l).
     replace (0 <? e_refs em) with true by lia. cbn [fx22 cfg_fixed negb]. rewrite andb_false_r.
-    split; [|split; [unfold FA; reflexivity|split; [unfold FE; split; reflexivity|split; [reflexivity|split; [reflexivity|split; [reflexivity|split; [intros j; cbn [s_emb set_emb]; eapply EMB_same_cap; eauto|intros HC; cbn [s_emb set_emb]; eapply EC_same_cap; eauto]]]]]]].
-    intros e'. cbn [s_emb set_emb s_handles]. rewrite (tget_replace_same _ _ _ _ _ _ E). specialize (T e').
+    set (s1 := set_emb (replace_nth (Z.to_nat e) (Some (mkEmb (e_cap em) (e_refs em - 1))) (s_emb s)) s).
+    assert (P2 : FA s s1) by reflexivity. assert (P3 : FE s s1) by (split; reflexivity).
+    assert (P7 : forall j, EMB j (s_emb s1) = EMB j (s_emb s)) by (intros j; cbn [s1 s_emb set_emb]; eapply EMB_same_cap; eauto).
+    assert (P8 : EC (s_emb s) -> EC (s_emb s1)) by (intros HC; cbn [s1 s_emb set_emb]; eapply EC_same_cap; eauto).
+    assert (P9 : XM s -> XM s1).
+    { intros [G S]. unfold XM. cbn [s1 s_emb s_mgen set_emb]. rewrite replace_nth_length. split; [exact G|].
+      eapply slots_free_replace; [exact S|apply (proj2 (tget_some _ _ _ _ E))]. }
+    refine (conj _ (conj P2 (conj P3 (conj eq_refl (conj eq_refl (conj eq_refl (conj P7 (conj P8 P9)))))))).
+    intros e'. cbn [s1 s_emb set_emb s_handles]. rewrite (tget_replace_same _ _ _ _ _ _ E). specialize (T e').
     destruct (e' =? e) eqn:Ee.
     + assert (e' = e) by lia. subst e'. cbn [e_refs]. lia.
     + simpl in T. replace (e =? e') with false in T by lia. destruct (tget e' (s_emb s)); [lia|exact T].
@@ -217,34 +225,35 @@ Qed.
 
 Lemma rf_release_cap : forall x s s1 o l, release_cap cfg_fixed x s = Ok (s1, o) -> TI s (x :: l) ->
   TI s1 l /\ FA s s1 /\ FE s s1 /\ s_handles s1 = s_handles s /\ s_boot s1 = s_boot s /\
-  (forall j, EMB j (s_emb s1) = EMB j (s_emb s)) /\ (EC (s_emb s) -> EC (s_emb s1)) /\ (forall j, X j s1 = X j s - cl j x).
+  (forall j, EMB j (s_emb s1) = EMB j (s_emb s)) /\ (EC (s_emb s) -> EC (s_emb s1)) /\ (forall j, X j s1 = X j s - cl j x) /\ (XM s -> XM s1) /\ s_mgen s1 = s_mgen s.
 Proof.
   intros x s s1 o l H T.
   assert (NE : not_emb x -> TI s1 l /\ FA s s1 /\ FE s s1 /\ s_handles s1 = s_handles s /\ s_boot s1 = s_boot s /\
-            (forall j, EMB j (s_emb s1) = EMB j (s_emb s)) /\ (EC (s_emb s) -> EC (s_emb s1)) /\ (forall j, X j s1 = X j s - cl j x)).
-  { intros Hx. destruct (rf_release_cap_ne _ _ _ _ H Hx) as (A & B & (C1 & C2 & C3) & D).
-    split; [|split; [exact A|split; [exact B|split; [exact C1|split; [exact C3|split; [intros j; rewrite C2; reflexivity|split; [rewrite C2; auto|exact D]]]]]]].
+            (forall j, EMB j (s_emb s1) = EMB j (s_emb s)) /\ (EC (s_emb s) -> EC (s_emb s1)) /\ (forall j, X j s1 = X j s - cl j x) /\ (XM s -> XM s1) /\ s_mgen s1 = s_mgen s).
+  { intros Hx. destruct (rf_release_cap_ne _ _ _ _ H Hx) as (A & B & (C1 & C2 & C3 & C4) & D).
+    split; [|split; [exact A|split; [exact B|split; [exact C1|split; [exact C3|split; [intros j; rewrite C2; reflexivity|split; [rewrite C2; auto|split; [exact D|split; [unfold XM; rewrite C2, C4; auto|exact C4]]]]]]]]].
     apply (TI_FH s s1 l); [repeat split; assumption|]. intros e. specialize (T e). simpl in T.
     replace (ce e x) with 0 in T by (destruct x; simpl in *; try reflexivity; contradiction).
     destruct (tget e (s_emb s)); [lia|destruct T; split; lia]. }
   destruct x; try (apply NE; exact I).
-  simpl in H. inversion H; subst. destruct (rf_emb_release e s l T) as (T1 & A & B & C & D & L & M & N).
-  split; [exact T1|split; [exact A|split; [exact B|split; [exact C|split; [exact D|split; [exact M|split; [exact N|]]]]]]].
-  intros j. unfold X, RC. rewrite D, (proj1 B), A, C, M, L. simpl. lia.
+  simpl in H. inversion H; subst. destruct (rf_emb_release e s l T) as (T1 & A & B & C & D & L & M & N & XMp).
+  split; [exact T1|split; [exact A|split; [exact B|split; [exact C|split; [exact D|split; [exact M|split; [exact N|split; [|split; [exact XMp|]]]]]]]]].
+  - intros j. unfold X, RC. rewrite D, (proj1 B), A, C, M, L. simpl. lia.
+  - unfold emb_release. destruct (tget e (s_emb s)); [destruct (0 <? e_refs e0); [destruct (_ && _ && _); [destruct (e_cap e0)|]|]|]; reflexivity.
 Qed.
 
 Lemma rf_release_caps : forall l s s1 o l', release_caps cfg_fixed l s = Ok (s1, o) -> TI s (l ++ l') ->
   TI s1 l' /\ FA s s1 /\ FE s s1 /\ s_handles s1 = s_handles s /\ s_boot s1 = s_boot s /\
-  (forall j, EMB j (s_emb s1) = EMB j (s_emb s)) /\ (EC (s_emb s) -> EC (s_emb s1)) /\ (forall j, X j s1 = X j s - cls j l).
+  (forall j, EMB j (s_emb s1) = EMB j (s_emb s)) /\ (EC (s_emb s) -> EC (s_emb s1)) /\ (forall j, X j s1 = X j s - cls j l) /\ (XM s -> XM s1) /\ s_mgen s1 = s_mgen s.
 Proof.
   induction l as [|x l IH]; intros s s1 o l' H T; simpl in H.
-  - inversion H; subst. split; [exact T|split; [unfold FA; reflexivity|split; [apply FE_refl|split; [reflexivity|split; [reflexivity|split; [reflexivity|split; [auto|intros j; simpl; lia]]]]]]].
+  - inversion H; subst. split; [exact T|split; [unfold FA; reflexivity|split; [apply FE_refl|split; [reflexivity|split; [reflexivity|split; [reflexivity|split; [auto|split; [intros j; simpl; lia|split; [auto|reflexivity]]]]]]]]].
   - destruct (release_cap cfg_fixed x s) as [[sa oa]| |] eqn:Ea; simpl in H; try discriminate.
     destruct (release_caps cfg_fixed l sa) as [[sb ob]| |] eqn:Eb; simpl in H; try discriminate. inversion H; subst.
-    destruct (rf_release_cap _ _ _ _ (l ++ l') Ea T) as (T1 & A1 & B1 & C1 & D1 & M1 & N1 & X1).
-    destruct (IH _ _ _ _ Eb T1) as (T2 & A2 & B2 & C2 & D2 & M2 & N2 & X2).
+    destruct (rf_release_cap _ _ _ _ (l ++ l') Ea T) as (T1 & A1 & B1 & C1 & D1 & M1 & N1 & X1 & P1 & G1).
+    destruct (IH _ _ _ _ Eb T1) as (T2 & A2 & B2 & C2 & D2 & M2 & N2 & X2 & P2 & G2).
     split; [exact T2|split; [eapply FA_trans; eauto|split; [eapply FE_trans; eauto|split; [congruence|split; [congruence|
-      split; [intros j; rewrite M2, M1; reflexivity|split; [auto|intros j; rewrite X2, X1; simpl; lia]]]]]]].
+      split; [intros j; rewrite M2, M1; reflexivity|split; [auto|split; [intros j; rewrite X2, X1; simpl; lia|split; [auto|congruence]]]]]]]]].
 Qed.
 
 Lemma rf_addref_ne : forall x s, not_emb x ->
@@ -384,7 +393,7 @@ Proof.
             (do '(id, g) <- gen_next (s_egen s); do t <- tput id (x, 1) (s_exp s);
              Ok (set_sent (cadd id 1 (s_sent s)) (set_allocs (s_allocs s + 1) (set_egen g (set_exp t s0))), DSH id, Some id)) = Ok (s1, d, oe) ->
             FA s s1 /\ FH s s1 /\ EN (s_exp s1) /\ XS s1 /\ forall j, X j s1 = X j s).
-  { intros s0 A0 (H1 & H2 & H3) E0 X0 HH. destruct (gen_next (s_egen s)) as [[id g']| |] eqn:EG; cbn [bind] in HH; try discriminate.
+  { intros s0 A0 (H1 & H2 & H3 & H4) E0 X0 HH. destruct (gen_next (s_egen s)) as [[id g']| |] eqn:EG; cbn [bind] in HH; try discriminate.
     destruct (tput id (x, 1) (s_exp s)) as [t'| |] eqn:ET; cbn [bind] in HH; try discriminate. inversion HH; subst.
     destruct Hx as [G S]. destruct (alloc_inv _ _ _ _ _ _ _ G S EG ET) as (G' & S' & Hn & TG & SH).
     split; [exact A0|split; [repeat split; assumption|split; [|split; [split; assumption|]]]].
@@ -627,4 +636,475 @@ Proof.
     split; [eapply FH_trans; eauto|split; [exact A2|split]].
     + intros i Hi. rewrite (O2 i), (O1 i); [reflexivity| |]; intros Hc; apply Hi; simpl; auto.
     + intros j. rewrite D2, D1. reflexivity.
+Qed.
+
+(* ---------------------------------------------------------------- embargoes *)
+
+Lemma cls_replace : forall j l n v old, nth_error l n = Some old -> cls j (replace_nth n v l) = cls j l - cl j old + cl j v.
+Proof.
+  intros j l. induction l as [|a l IH]; intros n v old H; destruct n; simpl in H; try discriminate; cbn [replace_nth cls].
+  - inversion H; subst. lia.
+  - rewrite (IH _ v _ H). lia.
+Qed.
+Lemma ces_replace : forall e l n v old, nth_error l n = Some old -> ces e (replace_nth n v l) = ces e l - ce e old + ce e v.
+Proof.
+  intros e l. induction l as [|a l IH]; intros n v old H; destruct n; simpl in H; try discriminate; cbn [replace_nth ces].
+  - inversion H; subst. lia.
+  - rewrite (IH _ v _ H). lia.
+Qed.
+Lemma noemb_nth : forall l n x, noemb l -> nth_error l n = Some x -> not_emb x.
+Proof. intros l n x H Hn. unfold noemb in H. rewrite Forall_forall in H. apply H. eapply nth_error_In; eauto. Qed.
+
+(* [sub] is the part of the table that came from the peer (no embargo promises); the entries embargoed so far
+   are promises of this very Return *)
+Lemma rf_embargo_caps : forall qid k called loc done tab s s1 tab1 o,
+  embargo_caps cfg_fixed qid k called loc done tab s = Ok (s1, tab1, o) -> XM s -> EC (s_emb s) -> TI s tab ->
+  (forall i lc, znth i tab = Some lc -> zmem i done = false -> not_emb lc) ->
+  FA s s1 /\ FE s s1 /\ s_handles s1 = s_handles s /\ s_boot s1 = s_boot s /\ XM s1 /\ EC (s_emb s1) /\ TI s1 tab1 /\
+  (forall j, X j s1 - cls j tab1 = X j s - cls j tab).
+Proof.
+  induction called as [|x called IH]; intros loc done tab s s1 tab1 o H Xm Ec Ti Nd; simpl in H.
+  - inversion H; subst. split; [reflexivity|split; [apply FE_refl|split; [reflexivity|split; [reflexivity|split; [exact Xm|split; [exact Ec|split; [exact Ti|reflexivity]]]]]]].
+  - destruct (transform_eval k x) as [|i| |]; try (eapply IH; eauto; fail).
+    destruct (znth i tab) as [lc|] eqn:Ez; [|eapply IH; eauto].
+    destruct (znth i loc) as [[|]|]; try (eapply IH; eauto; fail).
+    destruct (zmem i done) eqn:Ed; [eapply IH; eauto|].
+    destruct (gen_next (s_mgen s)) as [[e g]| |] eqn:EG; cbn [bind] in H; try discriminate.
+    destruct (tput e (mkEmb lc 1) (s_emb s)) as [t| |] eqn:ET; cbn [bind] in H; try discriminate.
+    match type of H with (bind ?r _) = _ => destruct r as [[[s2 tab2] o2]| |] eqn:E2; cbn [bind] in H; try discriminate end.
+    inversion H; subst. clear H.
+    destruct Xm as [G S]. destruct (alloc_inv _ _ _ _ _ _ _ G S EG ET) as (G' & S' & Hn & TG & SH).
+    pose proof (Nd _ _ Ez Ed) as Nlc. apply znth_some in Ez. destruct Ez as [Hr Hnth].
+    set (sa := set_allocs (s_allocs s + 1) (set_mgen g (set_emb t s))) in *.
+    set (tab' := replace_nth (Z.to_nat i) (CEmb e) tab) in *.
+    assert (Xa : XM sa) by (split; assumption).
+    assert (Ea : EC (s_emb sa)).
+    { intros em Hin. cbn [sa s_emb set_allocs set_mgen set_emb] in Hin.
+      destruct SH as [->|[_ ->]]; [apply in_app_or in Hin; destruct Hin as [Hin|[Hin|[]]]; [apply Ec; exact Hin|inversion Hin; subst; exact Nlc]|].
+      apply replace_nth_in in Hin. destruct Hin as [Hin|Hin]; [inversion Hin; subst; exact Nlc|apply Ec; exact Hin]. }
+    assert (Ta : TI sa tab').
+    { intros e'. cbn [sa s_emb s_handles set_allocs set_mgen set_emb]. rewrite TG. specialize (Ti e').
+      unfold tab'. rewrite (ces_replace e' _ _ (CEmb e) _ Hnth).
+      replace (ce e' lc) with 0 by (destruct lc; simpl in *; try reflexivity; contradiction). simpl ce.
+      destruct (e' =? e) eqn:Ee.
+      - assert (e' = e) by lia. subst e'. rewrite Hn in Ti. destruct Ti as [T1 T2]. rewrite Z.eqb_refl. cbn [e_refs]. lia.
+      - replace (e =? e') with false by lia. destruct (tget e' (s_emb s)); [lia|destruct Ti; split; lia]. }
+    assert (Na : forall i0 lc0, znth i0 tab' = Some lc0 -> zmem i0 (i :: done) = false -> not_emb lc0).
+    { intros i0 lc0 Hz Hm. simpl in Hm. apply orb_false_iff in Hm. destruct Hm as [Hi Hm]. unfold tab' in Hz.
+      rewrite znth_replace in Hz by lia. replace (i0 =? i) with false in Hz by lia. eapply Nd; eauto. }
+    destruct (IH _ _ _ _ _ _ _ E2 Xa Ea Ta Na) as (A2 & B2 & C2 & D2 & X2 & E2' & T2 & W2).
+    split; [exact A2|split; [exact B2|split; [exact C2|split; [exact D2|split; [exact X2|split; [exact E2'|split; [exact T2|]]]]]]].
+    intros j. rewrite W2. unfold tab'. rewrite (cls_replace j _ _ (CEmb e) _ Hnth). change (cl j (CEmb e)) with 0.
+    unfold X, RC. cbn [sa s_boot s_exp s_ans s_handles s_emb s_lrefs set_allocs set_mgen set_emb].
+    assert (EM : EMB j t = EMB j (s_emb s) + cl j lc).
+    { destruct SH as [->|[Hne ->]]; [rewrite EMB_app; reflexivity|]. rewrite (EMB_replace j _ _ (Some (mkEmb lc 1)) _ Hne). simpl. lia. }
+    rewrite EM. ring.
+Qed.
+
+(* embargo.lift *)
+Lemma hw_rewrite : forall j e x h, hw j (rewrite_handle e x h) = hw j h + he e h * cl j x.
+Proof.
+  intros j e x h. unfold rewrite_handle. destruct h as [q|c|]; cbn [hw he]; try ring. destruct c; cbn [hw he ce cl]; try ring.
+  destruct (e0 =? e) eqn:E; cbn [hw cl]; ring.
+Qed.
+Lemma HND_rewrite : forall j e x l, HND j (map (rewrite_handle e x) l) = HND j l + HE e l * cl j x.
+Proof. intros j e x l. induction l as [|h l IH]; simpl; [lia|]. rewrite IH, hw_rewrite. lia. Qed.
+Lemma HE_rewrite : forall e' e x l, not_emb x -> HE e' (map (rewrite_handle e x) l) = if e' =? e then 0 else HE e' l.
+Proof.
+  intros e' e x l Nx. induction l as [|h l IH]; simpl; [destruct (e' =? e); reflexivity|]. rewrite IH.
+  assert (Hh : he e' (rewrite_handle e x h) = if e' =? e then 0 else he e' h).
+  { destruct h as [q|c|]; simpl; try (destruct (e' =? e); reflexivity). destruct c; simpl; try (destruct (e' =? e); reflexivity).
+    destruct (e0 =? e) eqn:E0; simpl.
+    - replace (ce e' x) with 0 by (destruct x; simpl in *; try reflexivity; contradiction).
+      destruct (e' =? e) eqn:E1; [reflexivity|]. replace (e0 =? e') with false by lia. reflexivity.
+    - destruct (e' =? e) eqn:E1; [|reflexivity]. replace (e0 =? e') with false by lia. reflexivity. }
+  rewrite Hh. destruct (e' =? e); lia.
+Qed.
+
+Lemma rf_wake_calls : forall e x l s, let s1 := fst (wake_calls e x l s) in
+  s_boot s1 = s_boot s /\ s_exp s1 = s_exp s /\ s_ans s1 = s_ans s /\ s_handles s1 = s_handles s /\ s_emb s1 = s_emb s /\
+  s_lrefs s1 = s_lrefs s /\ s_egen s1 = s_egen s /\ s_mgen s1 = s_mgen s /\ s_qs s1 = s_qs s.
+Proof.
+  induction l as [|[[e' n] tag] l IH]; intros s; simpl; [repeat split|].
+  destruct (e' =? e); [|apply IH].
+  destruct x; try (specialize (IH s); destruct (wake_calls e _ l s); exact IH).
+  match goal with |- context [wake_calls e ?x l ?s1] => specialize (IH s1); destruct (wake_calls e x l s1) end. exact IH.
+Qed.
+
+Lemma rf_lift : forall e em s s1 o, lift cfg_fixed e em s = Ok (s1, o) -> not_emb (e_cap em) -> e_refs em = HE e (s_handles s) ->
+  FA s s1 /\ FE s s1 /\ s_emb s1 = s_emb s /\ s_boot s1 = s_boot s /\ s_mgen s1 = s_mgen s /\ s_qs s1 = s_qs s /\
+  s_handles s1 = map (rewrite_handle e (e_cap em)) (s_handles s) /\ forall j, X j s1 = X j s - cl j (e_cap em).
+Proof.
+  intros e em s s1 o H Nc Hr. unfold lift in H. cbn [fx22 cfg_fixed negb] in H. rewrite andb_false_r in H. cbv iota in H.
+  match type of H with context [wake_calls e ?x ?l ?s1] => set (sb := s1) in * end.
+  pose proof (rf_wake_calls e (e_cap em) (s_ecalls sb) sb) as W.
+  destruct (wake_calls e (e_cap em) (s_ecalls sb) sb) as [s2 o2]. simpl in W. destruct W as (W1 & W2 & W3 & W4 & W5 & W6 & W7 & W8 & W9).
+  inversion H; subst. clear H.
+  set (d := if e_refs em =? 0 then -1 else e_refs em - 1) in *.
+  assert (Sb : s_boot sb = s_boot s /\ s_exp sb = s_exp s /\ s_ans sb = s_ans s /\ s_emb sb = s_emb s /\ s_egen sb = s_egen s /\ s_mgen sb = s_mgen s /\ s_qs sb = s_qs s /\
+               s_handles sb = map (rewrite_handle e (e_cap em)) (s_handles s) /\ forall j, cget j (s_lrefs sb) = cget j (s_lrefs s) + d * cl j (e_cap em)).
+  { unfold sb. destruct (e_cap em); cbn [lref_cap];
+      (split; [reflexivity|split; [reflexivity|split; [reflexivity|split; [reflexivity|split; [reflexivity|split; [reflexivity|split; [reflexivity|split; [reflexivity|]]]]]]]]);
+      intros j0; try (cbn [cl s_lrefs set_handles]; lia).
+    rewrite cget_lref. cbn [cl s_lrefs set_handles]. rewrite (Z.eqb_sym j j0). destruct (j0 =? j); lia. }
+  destruct Sb as (B1 & B2 & B3 & B4 & B5 & B6 & B9 & B7 & B8).
+  split; [unfold FA; cbn [s_ans set_ecalls]; congruence|split; [split; cbn [s_exp s_egen set_ecalls]; congruence|
+    split; [cbn [s_emb set_ecalls]; congruence|split; [cbn [s_boot set_ecalls]; congruence|split; [cbn [s_mgen set_ecalls]; congruence|
+    split; [cbn [s_qs set_ecalls]; congruence|split; [cbn [s_handles set_ecalls]; congruence|]]]]]]].
+  intros j. unfold X, RC. cbn [s_boot s_exp s_ans s_handles s_emb s_lrefs set_ecalls].
+  rewrite W1, W2, W3, W4, W5, W6, B1, B2, B3, B4, B7, B8, HND_rewrite.
+  pose proof (HE_nonneg e (s_handles s)). unfold d. destruct (e_refs em =? 0) eqn:E0; [replace (HE e (s_handles s)) with 0 by lia; lia|].
+  rewrite <- Hr. destruct (s_boot s && (j =? 0)); lia.
+Qed.
+
+(* ---------------------------------------------------------------- the invariant at handler boundaries *)
+Definition HB (s : state) : Prop := forall qid q h, tget qid (s_qs s) = Some q -> q_fin q = false -> q_boot q = Some h ->
+  znth h (s_handles s) = Some (HBoot qid).
+Definition RI (s : state) : Prop :=
+  (forall j, X j s = 0) /\ TI s [] /\ AI s /\ EC (s_emb s) /\ XM s /\ HB s.
+
+Lemma HB_same : forall s s1, s_qs s1 = s_qs s -> s_handles s1 = s_handles s -> HB s -> HB s1.
+Proof. intros s s1 A B H. unfold HB. rewrite A, B. exact H. Qed.
+Lemma HB_qinert : forall s o s1, qinert s o s1 -> HB s -> HB s1.
+Proof. intros s o s1 [(F1 & F2 & _) _] H. eapply HB_same; [exact F1|exact F2|exact H]. Qed.
+Lemma XM_FH : forall s s1, FH s s1 -> XM s -> XM s1.
+Proof. intros s s1 (_ & B & _ & M) H. unfold XM. rewrite B, M. exact H. Qed.
+Lemma EC_FH : forall s s1, FH s s1 -> EC (s_emb s) -> EC (s_emb s1).
+Proof. intros s s1 (_ & B & _) H. rewrite B. exact H. Qed.
+
+(* assembling RI after a handler that keeps handles, embargoes, questions *)
+Lemma RI_keep : forall s s1, RI s -> FH s s1 -> s_qs s1 = s_qs s -> AI s1 -> (forall j, X j s1 = X j s) -> RI s1.
+Proof.
+  intros s s1 (Hx & Ti & Ai & Ec & Xm & Hb) F Q A1 X1.
+  split; [intros j; rewrite X1; apply Hx|split; [eapply TI_FH; eauto|split; [exact A1|split; [eapply EC_FH; eauto|split; [eapply XM_FH; eauto|]]]]].
+  eapply HB_same; [exact Q|apply (proj1 F)|exact Hb].
+Qed.
+
+Lemma AI_FA_FE : forall s s1, FA s s1 -> FE s s1 -> AI s -> AI s1.
+Proof. intros s s1 A B (K & P & He & Hx). unfold FA in A. split; [rewrite A; exact K|split; [rewrite A; exact P|split; [eapply EN_FE; eauto|eapply XS_FE; eauto]]]. Qed.
+
+Lemma pa1_new : forall tab mok tag, noemb tab -> pa1 (new_answer tab mok tag).
+Proof. intros tab mok tag N. split; [exact N|split; [simpl; discriminate|reflexivity]]. Qed.
+Lemma pa1_placeholder : pa1 placeholder.
+Proof. split; [constructor|split; [simpl; discriminate|reflexivity]]. Qed.
+
+(* ---------------------------------------------------------------- peer messages *)
+Lemma X_lref0 : forall j d k s, X j (lref d k s) = X j s + (if j =? k then d else 0).
+Proof. intros. rewrite (X_tabs j s (lref d k s)) by reflexivity. rewrite cget_lref. lia. Qed.
+
+Lemma ri_handle_bootstrap : forall id s s0 o0 ab, handle_bootstrap cfg_fixed id s = Ok (s0, o0, ab) -> RI s -> RI s0.
+Proof.
+  intros id s s0 o0 ab H R. pose proof (handle_bootstrap_qinert _ _ _ _ _ H) as [(Q1 & _) _]. simpl in Q1.
+  pose proof R as (Hx & Ti & Ai & Ec & Xm & Hb). unfold handle_bootstrap in H.
+  destruct (aget id (s_ans s)) eqn:Ea; [inversion H; subst; exact R|].
+  destruct (negb (s_boot s)).
+  - destruct (rf_send_exception _ _ _ _ _ _ H Ai eq_refl) as (F & A & O & D).
+    eapply RI_keep; eauto. intros j. rewrite D, Ea. simpl. lia.
+  - destruct (send_return cfg_fixed id _ _ _ _) as [[[s1 o] err]| |] eqn:E; cbn [bind] in H; try discriminate.
+    destruct err; [discriminate|]. inversion H; subst.
+    assert (Al : AI (lref 1 0 s)) by exact Ai.
+    destruct (rf_send_return _ _ _ _ _ _ _ _ E Al eq_refl) as (F & A & O & D).
+    eapply RI_keep; [exact R|eapply FH_trans; [|exact F]; repeat split|exact Q1|exact A|].
+    intros j. rewrite D, X_lref0. change (s_ans (lref 1 0 s)) with (s_ans s). rewrite Ea. cbn [awo rct_caps map cls cl]. rewrite (Z.eqb_sym 0 j). destruct (j =? 0); lia.
+Qed.
+
+Lemma ri_handle_finish : forall id rrc s s0 o0 ab, handle_finish cfg_fixed id rrc s = Ok (s0, o0, ab) -> RI s -> RI s0.
+Proof.
+  intros id rrc s s0 o0 ab H R. pose proof (handle_finish_qinert _ _ _ _ _ _ H) as [(Q1 & _) _]. simpl in Q1.
+  pose proof R as (Hx & Ti & Ai & Ec & Xm & Hb). unfold handle_finish in H.
+  destruct (aget id (s_ans s)) as [a|] eqn:Ea; [|inversion H; subst; exact R].
+  destruct (a_fin a); [inversion H; subst; exact R|].
+  pose proof (PA_aget _ _ _ (proj1 (proj2 Ai)) Ea) as (Na & Ra & Rc).
+  destruct (negb (a_ret a)) eqn:Er.
+  - inversion H; subst. destruct Ai as (K & P & He & Hx').
+    eapply RI_keep; [exact R|repeat split|reflexivity| |].
+    + split; [apply keys_aput; exact K|split; [|split; [exact He|exact Hx']]]. apply PA_aput; [exact P|]. split; [exact Na|split; [exact Ra|exact Rc]].
+    + intros j. rewrite X_set_ans, (ANS_aput j id _ _ K), Ea. cbn [awo]. unfold aw. cbn [a_args a_rct set_a_fin]. lia.
+  - destruct (rf_destroy _ _ _ _ _ _ H Ai) as (F & A & O & D).
+    eapply RI_keep; eauto. intros j. rewrite D, Ea. cbn [awo]. unfold aw. cbn [a_rct set_a_fin].
+    rewrite (Ra ltac:(destruct (a_ret a); [reflexivity|discriminate])). simpl. lia.
+Qed.
+
+Lemma ri_handle_release : forall id n s s0 o0 ab, handle_release cfg_fixed id n s = Ok (s0, o0, ab) -> RI s -> RI s0.
+Proof.
+  intros id n s s0 o0 ab H R. pose proof (handle_release_qinert _ _ _ _ _ _ H) as [(Q1 & _) _]. simpl in Q1.
+  pose proof R as (Hx & Ti & (K & P & He & Hx') & Ec & Xm & Hb). unfold handle_release in H.
+  pose proof (rf_release_export id n s He Hx') as F. destruct (release_export id n s) as [[s1 oc] err].
+  destruct F as (A1 & B1 & C1 & D1 & X1 & N1).
+  destruct err; [inversion H; subst; exact R|].
+  assert (Ai1 : AI s1) by (unfold FA in A1; split; [rewrite A1; exact K|split; [rewrite A1; exact P|split; [exact C1|exact D1]]]).
+  destruct oc as [x|].
+  - destruct (release_cap cfg_fixed x s1) as [[s2 o]| |] eqn:E; cbn [bind] in H; try discriminate. inversion H; subst.
+    destruct (rf_release_cap_ne _ _ _ _ E (N1 x eq_refl)) as (A2 & B2 & C2 & X2).
+    eapply RI_keep; [exact R|eapply FH_trans; eauto|exact Q1|eapply AI_FA_FE; eauto|].
+    intros j. rewrite X2, X1. simpl. lia.
+  - inversion H; subst. eapply RI_keep; [exact R|exact B1|exact Q1|exact Ai1|]. intros j. rewrite X1. simpl. lia.
+Qed.
+
+Lemma ri_handle_call : forall id tg params toCaller mok tag s s0 o0 ab,
+  handle_call cfg_fixed id tg params toCaller mok tag s = Ok (s0, o0, ab) -> RI s -> RI s0.
+Proof.
+  intros id tg params toCaller mok tag s s0 o0 ab H R. pose proof (handle_call_qinert _ _ _ _ _ _ _ _ _ _ H) as [(Q1 & _) _]. simpl in Q1.
+  pose proof R as (Hx & Ti & Ai & Ec & Xm & Hb). unfold handle_call in H.
+  destruct toCaller; simpl negb in H; cbv iota in H; [|inversion H; subst; exact R].
+  destruct (aget id (s_ans s)) eqn:Ea; [inversion H; subst; exact R|].
+  match type of H with (bind ?r _) = _ => destruct r as [[[s1 parsed] tor]| |] eqn:EP; cbn [bind] in H; try discriminate end.
+  (* after parseCall: the table of the message holds [held] *)
+  assert (P1 : exists held, FA s s1 /\ FE s s1 /\ FH s s1 /\ noemb held /\ (forall j, X j s1 = X j s + cls j held) /\
+            match parsed with Some (_, tab) => tab = held /\ tor = [] | None => tor = held end).
+  { destruct params as [p|].
+    - pose proof (rf_recv_payload p s (proj1 (proj2 (proj2 Ai)))) as C.
+      destruct (recv_payload cfg_fixed p s) as [sa k tab loc|sa part].
+      + destruct C as (A & B & Cf & N & D). destruct (parse_target tg); inversion EP; subst; eexists;
+          (split; [exact A|split; [exact B|split; [exact Cf|split; [exact N|split; [exact D|try split; reflexivity]]]]]).
+      + destruct C as (A & B & Cf & N & D). rewrite payload_err_fixed in EP. simpl in EP. inversion EP; subst. eexists.
+        split; [exact A|split; [exact B|split; [exact Cf|split; [exact N|split; [exact D|reflexivity]]]]].
+    - inversion EP; subst. exists []. split; [reflexivity|split; [apply FE_refl|split; [apply FH_refl|split; [constructor|split; [intros j; simpl; lia|reflexivity]]]]]. }
+  destruct P1 as (held & A1 & B1 & C1 & N1 & X1 & PM).
+  assert (Ai1 : AI s1) by (eapply AI_FA_FE; eauto).
+  assert (Ea1 : aget id (s_ans s1) = None) by (unfold FA in A1; rewrite A1; exact Ea).
+  assert (FIN : FH s1 s0 -> AI s0 -> (forall j, X j s0 = X j s1 - cls j held) -> RI s0).
+  { intros F A D. eapply RI_keep; [exact R|eapply FH_trans; eauto|exact Q1|exact A|]. intros j. rewrite D, X1. lia. }
+  destruct parsed as [[pt tab]|].
+  2:{ subst tor. cbn [fx15 cfg_fixed negb] in H.
+      destruct (send_exception cfg_fixed id _ s1) as [[[s2 o2] b2]| |] eqn:E2; cbn [bind] in H; try discriminate.
+      destruct (release_caps cfg_fixed held s2) as [[s3 o3]| |] eqn:E3; cbn [bind] in H; try discriminate. inversion H; subst.
+      destruct (rf_send_exception _ _ _ _ _ _ E2 Ai1 eq_refl) as (F2 & A2 & O2 & D2).
+      destruct (rf_release_caps_ne _ _ _ _ E3 N1) as (A3 & B3 & C3 & D3).
+      apply FIN; [eapply FH_trans; eauto|eapply AI_FA_FE; eauto|]. intros j. rewrite D3, D2, Ea1. simpl. lia. }
+  destruct PM as [-> ->].
+  assert (Pa : pa1 (new_answer held mok tag)) by (apply pa1_new; exact N1).
+  assert (AW : forall j, aw j (new_answer held mok tag) = cls j held) by (intros j; unfold aw; simpl; lia).
+  assert (UNK : forall o2, (do '(s2, o2) <- release_caps cfg_fixed held (set_ans (aput id placeholder (s_ans s1)) s1); Ok (s2, o2, true)) = Ok (s0, o2, ab) -> RI s0).
+  { intros o2 HU. destruct (release_caps cfg_fixed held _) as [[s2 o2']| |] eqn:E2; cbn [bind] in HU; try discriminate. inversion HU; subst.
+    destruct (rf_release_caps_ne _ _ _ _ E2 N1) as (A3 & B3 & C3 & D3). destruct Ai1 as (K1 & P1 & He1 & Hx1).
+    apply FIN; [eapply FH_trans; [|exact C3]; repeat split| |].
+    - eapply AI_FA_FE; [exact A3|exact B3|]. split; [apply keys_aput; exact K1|split; [apply PA_aput; [exact P1|exact pa1_placeholder]|split; [exact He1|exact Hx1]]].
+    - intros j. rewrite D3, X_set_ans, (ANS_aput j id _ _ K1), Ea1. unfold aw. simpl. lia. }
+  assert (DEL : forall t, deliver cfg_fixed id (new_answer held mok tag) t s1 = Ok (s0, o0, ab) -> RI s0).
+  { intros t HD. destruct (rf_deliver _ _ _ _ _ _ _ HD Ai1 Pa) as (F & A & O & D). apply FIN; [exact F|exact A|].
+    intros j. rewrite D, Ea1, AW. simpl. lia. }
+  assert (REJ : reject cfg_fixed id (new_answer held mok tag) s1 = Ok (s0, o0, ab) -> RI s0).
+  { intros HD. destruct (rf_reject _ _ _ _ _ _ HD Ai1 Pa) as (F & A & O & D). apply FIN; [exact F|exact A|].
+    intros j. rewrite D, Ea1, AW. simpl. lia. }
+  destruct pt as [e|t x].
+  - destruct (tget e (s_exp s1)) as [[xc w]|]; [eapply DEL; eauto|apply (UNK _ H)].
+  - cbn [fx24 cfg_fixed negb andb] in H. rewrite andb_false_r in H. destruct (t =? id); [apply (UNK _ H)|].
+    destruct (aget t (s_ans s1)) as [ta|]; [|apply (UNK _ H)].
+    destruct (a_fin ta); [apply (UNK _ H)|].
+    destruct (a_ready ta).
+    + destruct (a_err ta); [apply REJ; exact H|eapply DEL; eauto].
+    + destruct (a_st ta); [discriminate| |]; cbn [fx14 cfg_fixed] in H; inversion H; subst; destruct Ai1 as (K1 & P1 & He1 & Hx1);
+        (apply FIN; [repeat split|split; [apply keys_aput; exact K1|split; [apply PA_aput; [exact P1|exact Pa]|split; [exact He1|exact Hx1]]]|];
+         intros j; unfold X, RC; cbn [s_boot s_exp s_ans s_handles s_emb s_lrefs set_queue set_ans];
+         rewrite (ANS_aput j id _ _ K1), Ea1; unfold aw; simpl; lia).
+Qed.
+
+Lemma znth_map : forall A B (f : A -> B) l h v, znth h l = Some v -> znth h (map f l) = Some (f v).
+Proof.
+  intros A B f l h v H. apply znth_some in H. destruct H as [Hr Hn]. unfold znth. rewrite map_length.
+  replace ((h <? 0) || (Z.of_nat (length l) <=? h)) with false by lia. rewrite nth_error_map, Hn. reflexivity.
+Qed.
+
+Lemma EMB_tclear : forall j t e em, tget e t = Some em -> EMB j (tclear e t) = EMB j t - cl j (e_cap em).
+Proof.
+  intros j t e em H. apply tget_some in H. destruct H as [Hr Hn]. unfold tclear.
+  replace ((0 <=? e) && (e <? Z.of_nat (length t))) with true by lia. rewrite (EMB_replace j t _ None _ Hn). simpl. lia.
+Qed.
+
+Lemma ri_handle_disembargo : forall tg cx s s0 o0 ab, handle_disembargo cfg_fixed tg cx s = Ok (s0, o0, ab) -> RI s -> RI s0.
+Proof.
+  intros tg cx s s0 o0 ab H R. pose proof R as (Hx & Ti & Ai & Ec & (G & S) & Hb). unfold handle_disembargo in H.
+  destruct (parse_target tg); [|inversion H; subst; exact R].
+  destruct cx as [i|e|]; [inversion H; subst; exact R| |inversion H; subst; exact R].
+  destruct (tget e (s_emb s)) as [em|] eqn:Eg; [|inversion H; subst; exact R].
+  match type of H with (bind (lift cfg_fixed e em ?sx) _) = _ => set (sa := sx) in *; destruct (lift cfg_fixed e em sa) as [[s1 o1]| |] eqn:EL; cbn [bind] in H; try discriminate end.
+  inversion H; subst. clear H.
+  pose proof (tget_some _ _ _ _ Eg) as [Hr Hn]. pose proof (Ti e) as Te. rewrite Eg in Te. simpl in Te.
+  assert (Nc : not_emb (e_cap em)) by (apply Ec; eapply tget_in; eauto).
+  destruct (rf_lift _ _ _ _ _ EL Nc ltac:(change (s_handles sa) with (s_handles s); lia)) as (A & B & C & D & M & Q & Hh & Xl).
+  split; [|split; [|split; [|split; [|split]]]].
+  - intros j. rewrite Xl. unfold sa. unfold X, RC. cbn [s_boot s_exp s_ans s_handles s_emb s_lrefs set_mgen set_emb].
+    rewrite (EMB_tclear j _ _ _ Eg). specialize (Hx j). unfold X, RC in Hx. lia.
+  - intros e'. rewrite C, Hh. change (s_emb sa) with (tclear e (s_emb s)). change (s_handles sa) with (s_handles s).
+    rewrite tget_tclear, (HE_rewrite e' e _ _ Nc). specialize (Ti e'). simpl in Ti. destruct (e' =? e); [split; reflexivity|].
+    cbn [ces]. destruct (tget e' (s_emb s)); [lia|destruct Ti; split; lia].
+  - eapply AI_FA_FE; [exact A|exact B|exact Ai].
+  - rewrite C. change (s_emb sa) with (tclear e (s_emb s)). intros em0 Hin. apply tclear_in in Hin. destruct Hin as [Hin|Hin]; [discriminate|apply Ec; exact Hin].
+  - unfold XM. rewrite C, M. change (s_emb sa) with (tclear e (s_emb s)). change (s_mgen sa) with (gen_remove e (s_mgen s)).
+    rewrite tclear_length. split; [apply gen_remove_ok; [exact G|lia]|apply slots_free_tclear; exact S].
+  - intros qid q h Hq Hf Hbq. rewrite Q in Hq. change (s_qs sa) with (s_qs s) in Hq. rewrite Hh. change (s_handles sa) with (s_handles s).
+    apply (znth_map _ _ (rewrite_handle e (e_cap em)) _ _ _ (Hb _ _ _ Hq Hf Hbq)).
+Qed.
+
+(* ---------------------------------------------------------------- a Return arrives *)
+(* the bootstrap handle resolves to x: one more reference on x, held by the handle *)
+Lemma rf_resolve : forall h x s l qid, TI s l -> (not_emb x \/ In x l) -> znth h (s_handles s) = Some (HBoot qid) ->
+  let s1 := set_handle h (HCap x) (addref_cap x s) in
+  TI s1 l /\ FA s s1 /\ FE s s1 /\ s_boot s1 = s_boot s /\ s_mgen s1 = s_mgen s /\ (forall j, X j s1 = X j s) /\
+  (EC (s_emb s) -> EC (s_emb s1)) /\ (XM s -> XM s1) /\ s_handles s1 = replace_nth (Z.to_nat h) (HCap x) (s_handles s) /\ s_qs s1 = s_qs s.
+Proof.
+  intros h x s l qid T Hx Hz. pose proof (znth_some _ _ _ _ Hz) as [Hr Hn].
+  assert (NE : not_emb x -> let s1 := set_handle h (HCap x) (addref_cap x s) in
+            TI s1 l /\ FA s s1 /\ FE s s1 /\ s_boot s1 = s_boot s /\ s_mgen s1 = s_mgen s /\ (forall j, X j s1 = X j s) /\
+            (EC (s_emb s) -> EC (s_emb s1)) /\ (XM s -> XM s1) /\ s_handles s1 = replace_nth (Z.to_nat h) (HCap x) (s_handles s) /\ s_qs s1 = s_qs s).
+  { intros Nx. destruct (rf_addref_ne x s Nx) as (A & B & (C1 & C2 & C3 & C4) & D). pose proof (aux_addref x s) as AQ.
+    assert (Q : s_qs (addref_cap x s) = s_qs s) by (change (x_qs (aux_of (addref_cap x s)) = s_qs s); rewrite AQ; reflexivity).
+    cbv zeta. unfold set_handle. set (sr := addref_cap x s) in *.
+    split; [|split; [exact A|split; [exact B|split; [exact C3|split; [exact C4|split; [|split; [cbn [s_emb set_handles]; rewrite C2; auto|split; [unfold XM; cbn [s_emb s_mgen set_handles]; rewrite C2, C4; auto|split; [cbn [s_handles set_handles]; rewrite C1; reflexivity|exact Q]]]]]]]]].
+    - intros e. cbn [s_emb s_handles set_handles]. rewrite C2, C1. rewrite (HE_replace e _ _ (HCap x) _ Hn). specialize (T e).
+      replace (he e (HCap x)) with 0 by (destruct x; simpl in *; try reflexivity; contradiction). simpl he. destruct (tget e (s_emb s)); [lia|destruct T; split; lia].
+    - intros j. unfold X, RC. cbn [s_boot s_exp s_ans s_handles s_emb s_lrefs set_handles].
+      specialize (D j). unfold X, RC in D. rewrite C1. rewrite (HND_replace j _ _ (HCap x) _ Hn). simpl hw.
+      unfold FA in A. destruct B as [B1 B2]. rewrite C1, C2, C3, A, B1 in D. rewrite C2, C3, A, B1. lia. }
+  destruct x; try (apply NE; exact I).
+  destruct Hx as [Hx|Hx]; [contradiction|].
+  (* an embargo promise of this very Return: it is in the table, so its entry counts at least one holder *)
+  assert (Cp : 1 <= ces e l).
+  { clear - Hx. induction l as [|y l IH]; [destruct Hx|]. destruct Hx as [->|Hx]; simpl; [rewrite Z.eqb_refl; pose proof (ces_nonneg e l); lia|].
+    specialize (IH Hx). pose proof (ce_nonneg e y). lia. }
+  pose proof (T e) as Te. destruct (tget e (s_emb s)) as [em|] eqn:Eg; [|lia].
+  pose proof (HE_nonneg e (s_handles s)).
+  cbv zeta. unfold set_handle. simpl addref_cap. rewrite Eg. replace (0 <? e_refs em) with true by lia.
+  set (sr := set_emb (replace_nth (Z.to_nat e) (Some (mkEmb (e_cap em) (e_refs em + 1))) (s_emb s)) s).
+  split; [|split; [reflexivity|split; [split; reflexivity|split; [reflexivity|split; [reflexivity|split; [|split; [|split; [|split; reflexivity]]]]]]]].
+  - intros e'. cbn [sr s_emb s_handles set_handles set_emb]. rewrite (tget_replace_same _ _ _ _ _ _ Eg).
+    rewrite (HE_replace e' _ _ (HCap (CEmb e)) _ Hn). simpl he. specialize (T e'). destruct (e' =? e) eqn:Ee.
+    + assert (e' = e) by lia. subst e'. rewrite Z.eqb_refl. cbn [e_refs]. lia.
+    + replace (e =? e') with false by lia. destruct (tget e' (s_emb s)); [lia|destruct T; split; lia].
+  - intros j. unfold X, RC. cbn [sr s_boot s_exp s_ans s_handles s_emb s_lrefs set_handles set_emb].
+    rewrite (HND_replace j _ _ (HCap (CEmb e)) _ Hn), (EMB_same_cap j _ _ _ _ Eg) by reflexivity. simpl hw. lia.
+  - intros HC. cbn [sr s_emb set_handles set_emb]. eapply EC_same_cap; eauto.
+  - intros [G S]. unfold XM. cbn [sr s_emb s_mgen set_handles set_emb]. rewrite replace_nth_length. split; [exact G|].
+    eapply slots_free_replace; [exact S|apply (proj2 (tget_some _ _ _ _ Eg))].
+Qed.
+
+Lemma TI_noemb : forall s l, TI s [] -> noemb l -> TI s l.
+Proof. intros s l T N e. specialize (T e). simpl in T. rewrite (ces_noemb e l N). destruct (tget e (s_emb s)); [lia|destruct T; split; lia]. Qed.
+
+Lemma RI_qgen : forall s g, RI s -> RI (set_qgen g s).
+Proof. intros s g R. exact R. Qed.
+
+Lemma ri_handle_return : forall qid rpc k s s0 o0 ab, handle_return cfg_fixed qid rpc k s = Ok (s0, o0, ab) -> RI s -> RI s0.
+Proof.
+  intros qid rpc k s s0 o0 ab H R. pose proof R as (Hx & Ti & Ai & Ec & Xm & Hb). unfold handle_return in H.
+  destruct (tget qid (s_qs s)) as [q|] eqn:Eq; [|inversion H; subst; exact R].
+  set (sa := set_qs (tclear qid (s_qs s)) s) in *.
+  destruct Ai as (K & P & He & Hxs).
+  (* 1: the export references of the parameters *)
+  assert (A1 : exists s1 pc, (if fx19 cfg_fixed && rpc then let '(s1, cl, _) := release_exports (q_prefs q) sa in (s1, cl) else (sa, [])) = (s1, pc) /\
+            FA sa s1 /\ FH sa s1 /\ EN (s_exp s1) /\ XS s1 /\ (forall j, X j s1 = X j sa + cls j pc) /\ noemb pc /\ s_qs s1 = s_qs sa).
+  { destruct (fx19 cfg_fixed && rpc).
+    - pose proof (rf_release_exports (q_prefs q) sa He Hxs) as F. pose proof (aux_release_exports (q_prefs q) sa) as AQ.
+      destruct (release_exports (q_prefs q) sa) as [[s1 cl0] e]. simpl in AQ. destruct F as (F1 & F2 & F3 & F4 & F5 & F6).
+      exists s1, cl0. split; [reflexivity|]. split; [exact F1|split; [exact F2|split; [exact F3|split; [exact F4|split; [exact F5|split; [exact F6|]]]]]].
+      change (x_qs (aux_of s1) = x_qs (aux_of sa)). rewrite AQ. reflexivity.
+    - exists sa, []. split; [reflexivity|]. split; [reflexivity|split; [apply FH_refl|split; [exact He|split; [exact Hxs|split; [intros j; simpl; lia|split; [constructor|reflexivity]]]]]]. }
+  destruct A1 as (s1 & pc & E1 & A1 & B1 & C1 & D1 & X1 & N1 & Q1). rewrite E1 in H. clear E1.
+  assert (Xa : forall j, X j sa = 0) by (intros j; rewrite <- (Hx j); apply X_eq; reflexivity).
+  assert (T1 : TI s1 []) by (eapply TI_FH; [exact B1|exact Ti]).
+  assert (Ec1 : EC (s_emb s1)) by (eapply EC_FH; [exact B1|exact Ec]).
+  assert (Xm1 : XM s1) by (eapply XM_FH; [exact B1|exact Xm]).
+  assert (Ans1 : s_ans s1 = s_ans s) by exact A1.
+  assert (Hn1 : s_handles s1 = s_handles s) by (apply (proj1 B1)).
+  (* closing: release the parameter clients, free the id; [hs] are the final handles *)
+  assert (FINAL : forall sx o5 s5, release_caps cfg_fixed pc sx = Ok (s5, o5) ->
+            TI sx [] -> s_ans sx = s_ans s -> EN (s_exp sx) -> XS sx -> EC (s_emb sx) -> XM sx ->
+            (forall j, X j sx = cls j pc) -> s_qs sx = tclear qid (s_qs s) ->
+            (forall qid' q' h', qid' <> qid -> tget qid' (s_qs s) = Some q' -> q_fin q' = false -> q_boot q' = Some h' -> znth h' (s_handles sx) = Some (HBoot qid')) ->
+            RI s5).
+  { intros sx o5 s5 E5 Tx Ax Ex Xsx Ecx Xmx Xx Qx Hbx.
+    destruct (rf_release_caps_ne _ _ _ _ E5 N1) as (A5 & B5 & C5 & X5). pose proof (aux_release_caps _ _ _ _ _ E5) as AQ5.
+    unfold FA in A5.
+    split; [|split; [|split; [|split; [|split]]]].
+    - intros j. rewrite X5, Xx. lia.
+    - apply (TI_FH sx); [exact C5|exact Tx].
+    - split; [rewrite A5, Ax; exact K|split; [rewrite A5, Ax; exact P|split; [eapply EN_FE; eauto|apply (XS_FE sx s5 B5 Xsx)]]].
+    - eapply EC_FH; eauto.
+    - apply (XM_FH sx s5 C5 Xmx).
+    - intros qid' q' h' Hq Hf Hbq.
+      assert (Q5 : s_qs s5 = s_qs sx) by (change (x_qs (aux_of s5) = x_qs (aux_of sx)); rewrite AQ5; reflexivity).
+      rewrite Q5, Qx, tget_tclear in Hq. destruct (qid' =? qid) eqn:E; [discriminate|].
+      rewrite (proj1 C5). eapply Hbx; eauto. lia. }
+  assert (HBK : forall sx, s_handles sx = s_handles s ->
+            forall qid' q' h', qid' <> qid -> tget qid' (s_qs s) = Some q' -> q_fin q' = false -> q_boot q' = Some h' -> znth h' (s_handles sx) = Some (HBoot qid')).
+  { intros sx Hs qid' q' h' _ Hq Hf Hbq. rewrite Hs. eapply Hb; eauto. }
+  destruct (q_fin q) eqn:Ef.
+  { destruct (release_caps cfg_fixed pc _) as [[s2 o2]| |] eqn:E2; cbn [bind] in H; try discriminate. inversion H; subst.
+    apply (FINAL _ _ _ E2 T1 Ans1 C1 D1 Ec1 Xm1); [|exact Q1|apply HBK; exact Hn1].
+    intros j. rewrite (X_eq j s1) by reflexivity. rewrite X1, Xa. lia. }
+  match type of H with (bind ?r _) = _ => destruct r as [[[[s2 parsed] tor] disemb]| |] eqn:EP; cbn [bind] in H; try discriminate end.
+  (* 2: parseReturn; [tabT] is what the message table holds afterwards *)
+  assert (P2 : exists tabT, TI s2 tabT /\ s_ans s2 = s_ans s /\ EN (s_exp s2) /\ XS s2 /\ EC (s_emb s2) /\ XM s2 /\ s_handles s2 = s_handles s /\
+            (forall j, X j s2 - cls j tabT = cls j pc) /\ s_qs s2 = tclear qid (s_qs s) /\
+            match parsed with Some (_, tab) => tab = tabT /\ tor = [] | None => tor = tabT /\ noemb tabT end).
+  { assert (NOP : s2 = s1 -> parsed = None -> tor = [] -> exists tabT, TI s2 tabT /\ s_ans s2 = s_ans s /\ EN (s_exp s2) /\ XS s2 /\ EC (s_emb s2) /\ XM s2 /\ s_handles s2 = s_handles s /\
+              (forall j, X j s2 - cls j tabT = cls j pc) /\ s_qs s2 = tclear qid (s_qs s) /\
+              match parsed with Some (_, tab) => tab = tabT /\ tor = [] | None => tor = tabT /\ noemb tabT end).
+    { intros -> -> ->. exists []. split; [exact T1|split; [exact Ans1|split; [exact C1|split; [exact D1|split; [exact Ec1|split; [exact Xm1|split; [exact Hn1|split; [|split; [exact Q1|split; [reflexivity|constructor]]]]]]]]]].
+      intros j. rewrite X1, Xa. simpl. lia. }
+    destruct k as [[p|]| |]; try (inversion EP; subst; apply NOP; reflexivity).
+    pose proof (rf_recv_payload p s1 C1) as Cp. pose proof (aux_recv_payload cfg_fixed p s1) as AQp.
+    destruct (recv_payload cfg_fixed p s1) as [sb kc tab loc|sb part].
+    - destruct Cp as (Ap & Bp & Fp & Np & Xp).
+      destruct (embargo_caps cfg_fixed qid kc (q_called q) loc [] tab sb) as [[[s3 tab3] o3]| |] eqn:E3; cbn [bind] in EP; try discriminate.
+      inversion EP; subst. pose proof (aux_embargo_caps _ _ _ _ _ _ _ _ _ _ E3) as [AQ3 _].
+      destruct (rf_embargo_caps _ _ _ _ _ _ _ _ _ _ E3 (XM_FH _ _ Fp Xm1) (EC_FH _ _ Fp Ec1) (TI_noemb _ _ (TI_FH _ _ _ Fp T1) Np)
+                  ltac:(intros i lc Hz _; apply znth_some in Hz; eapply noemb_nth; [exact Np|apply (proj2 Hz)])) as (A3 & B3 & C3 & D3 & Xm3 & Ec3 & T3 & W3).
+      exists tab3. unfold FA in *.
+      split; [exact T3|split; [congruence|split; [eapply EN_FE; [exact B3|eapply EN_FE; eauto]|split; [eapply XS_FE; [exact B3|eapply XS_FE; eauto]|
+        split; [exact Ec3|split; [exact Xm3|split; [rewrite C3, (proj1 Fp); exact Hn1|split; [|split; [|split; reflexivity]]]]]]]]].
+      + intros j. rewrite W3, Xp, X1, Xa. lia.
+      + change (x_qs (aux_of s2) = tclear qid (s_qs s)). rewrite AQ3, AQp. exact Q1.
+    - destruct Cp as (Ap & Bp & Fp & Np & Xp). rewrite payload_err_fixed in EP. simpl in EP. inversion EP; subst.
+      exists tor. unfold FA in *.
+      split; [apply TI_noemb; [eapply TI_FH; eauto|exact Np]|split; [congruence|split; [eapply EN_FE; eauto|split; [eapply XS_FE; eauto|
+        split; [eapply EC_FH; eauto|split; [eapply XM_FH; eauto|split; [rewrite (proj1 Fp); exact Hn1|split; [|split; [|split; [reflexivity|exact Np]]]]]]]]]].
+      + intros j. rewrite Xp, X1, Xa. lia.
+      + change (x_qs (aux_of s2) = tclear qid (s_qs s)). rewrite AQp. exact Q1. }
+  destruct P2 as (tabT & T2 & Ans2 & En2 & Xs2 & Ec2 & Xm2 & Hn2 & X2 & Q2 & PM).
+  match type of H with (bind ?r _) = _ => destruct r as [[s3 o3]| |] eqn:E3; cbn [bind] in H; try discriminate end.
+  destruct (release_caps cfg_fixed pc s3) as [[s5 o5]| |] eqn:E5; cbn [bind] in H; try discriminate. inversion H; subst. clear H.
+  apply (RI_qgen s5).
+  (* 3: the resolution step: a state [sr] in which the table is still held, then the table is released *)
+  assert (REL : forall sr o4, release_caps cfg_fixed tabT sr = Ok (s3, o4) ->
+            TI sr tabT -> s_ans sr = s_ans s -> EN (s_exp sr) -> XS sr -> EC (s_emb sr) -> XM sr ->
+            (forall j, X j sr - cls j tabT = cls j pc) -> s_qs sr = tclear qid (s_qs s) ->
+            (forall qid' q' h', qid' <> qid -> tget qid' (s_qs s) = Some q' -> q_fin q' = false -> q_boot q' = Some h' -> znth h' (s_handles sr) = Some (HBoot qid')) ->
+            RI s5).
+  { intros sr o4 E4 Tr Ar Er Xsr Ecr Xmr Xr Qr Hbr. set (s4 := s3) in *.
+    rewrite <- (app_nil_r tabT) in Tr. destruct (rf_release_caps _ _ _ _ _ E4 Tr) as (T4 & A4 & B4 & C4 & D4 & M4 & N4 & X4 & P4 & G4).
+    pose proof (aux_release_caps _ _ _ _ _ E4) as AQ4. unfold FA in A4.
+    apply (FINAL s4 o5 s5 E5); auto.
+    - congruence.
+    - eapply EN_FE; eauto.
+    - eapply XS_FE; eauto.
+    - intros j. rewrite X4. specialize (Xr j). lia.
+    - change (x_qs (aux_of s4) = tclear qid (s_qs s)). rewrite AQ4. exact Qr.
+    - intros qid' q' h' Hne Hq Hf Hbq. rewrite C4. eapply Hbr; eauto. }
+  destruct (q_boot q) as [h|] eqn:Eb; destruct parsed as [[kc tab]|]; cbn [fx17 cfg_fixed negb andb] in E3;
+    match type of E3 with (bind ?r _) = _ => destruct r as [[s4 o4]| |] eqn:E4; cbn [bind] in E3; try discriminate end;
+    inversion E3; subst.
+  - (* bootstrap question, results *)
+    destruct PM as [-> _]. pose proof (Hb _ _ _ Eq Ef Eb) as Hz. rewrite <- Hn2 in Hz.
+    match type of E4 with release_caps _ _ (set_handle h (HCap ?x) _) = _ => set (xr := x) in * end.
+    assert (Hxr : not_emb xr \/ In xr tabT).
+    { unfold xr. destruct (transform_eval kc []) as [|ix| |]; try (left; exact I). destruct (znth ix tabT) as [y|] eqn:Ey; [|left; exact I].
+      right. apply znth_some in Ey. eapply nth_error_In. apply (proj2 Ey). }
+    destruct (rf_resolve h xr s2 tabT qid T2 Hxr Hz) as (Tr & Ar & Br & Cr & Dr & Xr & Ecr & Xmr & Hr & Qr).
+    apply (REL _ _ E4 Tr); [transitivity (s_ans s2); [exact Ar|exact Ans2]|eapply EN_FE; [exact Br|exact En2]|eapply XS_FE; [exact Br|exact Xs2]|
+      exact (Ecr Ec2)|exact (Xmr Xm2)|intros j; rewrite Xr; apply X2|transitivity (s_qs s2); [exact Qr|exact Q2]|].
+    + intros qid' q' h' Hne Hq Hf Hbq. rewrite Hr, Hn2. pose proof (Hb _ _ _ Hq Hf Hbq) as Hz'. pose proof (Hb _ _ _ Eq Ef Eb) as Hz0.
+      assert (h' <> h) by (intros ->; rewrite Hz0 in Hz'; inversion Hz'; lia).
+      apply znth_some in Hz0. rewrite znth_replace by lia. replace (h' =? h) with false by lia. exact Hz'.
+  - (* bootstrap question, no results: the handle becomes an error *)
+    destruct PM as [-> Nt]. pose proof (Hb _ _ _ Eq Ef Eb) as Hz. rewrite <- Hn2 in Hz.
+    destruct (rf_resolve h CErr s2 tabT qid T2 (or_introl I) Hz) as (Tr & Ar & Br & Cr & Dr & Xr & Ecr & Xmr & Hr & Qr).
+    apply (REL _ _ E4 Tr); [transitivity (s_ans s2); [exact Ar|exact Ans2]|eapply EN_FE; [exact Br|exact En2]|eapply XS_FE; [exact Br|exact Xs2]|
+      exact (Ecr Ec2)|exact (Xmr Xm2)|intros j; rewrite Xr; apply X2|transitivity (s_qs s2); [exact Qr|exact Q2]|].
+    + intros qid' q' h' Hne Hq Hf Hbq. cbn [addref_cap] in Hr. rewrite Hr, Hn2. pose proof (Hb _ _ _ Hq Hf Hbq) as Hz'. pose proof (Hb _ _ _ Eq Ef Eb) as Hz0.
+      assert (h' <> h) by (intros ->; rewrite Hz0 in Hz'; inversion Hz'; lia).
+      apply znth_some in Hz0. rewrite znth_replace by lia. replace (h' =? h) with false by lia. exact Hz'.
+  - destruct PM as [-> _]. apply (REL s2 _ E4 T2 Ans2 En2 Xs2 Ec2 Xm2 X2 Q2). apply HBK. exact Hn2.
+  - destruct PM as [-> Nt]. apply (REL s2 _ E4 T2 Ans2 En2 Xs2 Ec2 Xm2 X2 Q2). apply HBK. exact Hn2.
 Qed.
